@@ -13,6 +13,7 @@ from .lang import Roles
 from .origin import Origins, show, walk
 from .templates import templates_of
 from .util import Vars, reaches_without, dominating_edge_labels
+from .paths import acyclic_paths, PathOriginsOv
 from . import p_c01, p_c02, p_c09, witness
 
 TECHNIQUE = 'static analysis: code-generator templates recovered from format_args! constants in MIR; generated witness crate type-checked by rustc; event-language equality of instantiated templates against the language table; placeholder provenance (units) and format-string-position lint'
@@ -577,10 +578,53 @@ def rule_units(ctx, R):
             reads = reads or {ub}
             stale = [o for o in opens if any(reaches_without(cfg, cfg.succ[o], lb, cut_blocks=set(adds) | set(heads_)) for lb in reads)]
             R.check(not stale, "units:fresh:%s" % what.replace(" ", "_"), "the block index recorded by the %s is read after the command was put into its block and before the next block is opened" % what, b.blocks[ub]["term"]["span"]["at"] if b.blocks[ub]["term"].get("span") else None)
+    # output computed during pre-execution: stack 1 goes into the emitted print!, stack 2 into the emitted eprint!,
+    # each under the guard that this very stack is not empty, and that same stack is cleared afterwards
+    evp = Events(b, fb, roles=roles)
+    for fn_, k_ in ((COMPILE + "fn_print", "1"), (COMPILE + "fn_eprint", "2")):
+        sites = [(bi, t) for bi, t in b.calls() if callee_name(t["f"], fb) == fn_]
+        if not R.anchor(len(sites) == 1, "units:preout:%s" % k_, "the call of %s" % fn_.rsplit("::", 1)[-1]):
+            continue
+        bi, t = sites[0]
+        txt = roles.of_operand(t["args"][1], bi)
+        labs = [l for l in dominating_edge_labels(cfg, b, evp, bi) if "Vec::is_empty(State::get_stack(STATE,K" in l]
+        want_s = "State::get_stack(STATE,K%s)" % k_
+        other_s = "State::get_stack(STATE,K%s)" % ("2" if k_ == "1" else "1")
+        cl_same = [b2 for b2, t2 in b.calls() if callee_name(t2["f"], fb) == "std::vec::Vec::clear" and roles.of_operand(t2["args"][0], b2) == want_s]
+        covered = bool(cl_same) and not (reaches_without(cfg, [0], bi, cut_blocks=cl_same) and reaches_without(cfg, [bi], cfg.returns, cut_blocks=cl_same))
+        if bool(cl_same) and not covered:
+            # the clear may sit in a helper that returns Option: follow the paths to the site with path-precise origins
+            # and drop those on which a discriminant test contradicts the value constructed on that very path
+            try:
+                feas_avoiding = False
+                for p_ in acyclic_paths(cfg, 0, [bi], 3000):
+                    if any(x in cl_same for x in p_):
+                        continue
+                    org_ = PathOriginsOv(b, fb, p_, overrides={BL: ("role", "BLOCKS")})
+                    ok_ = True
+                    for i_, b2 in enumerate(p_[:-1]):
+                        t2 = b.blocks[b2]["term"]
+                        if t2["k"] != "switch":
+                            continue
+                        o2 = org_.of_operand(t2["x"], b2, "t")
+                        if o2[0] == "discr" and o2[1][0] == "agg" and o2[1][1].rsplit("::", 1)[-1] in ("None", "Some"):
+                            v2 = 1 if o2[1][1].endswith("Some") else 0
+                            tk = [bb for a_, bb in t2["arms"] if int(a_) == v2]
+                            tk = tk[0] if tk else t2["otherwise"]
+                            if tk != p_[i_ + 1]:
+                                ok_ = False
+                                break
+                    if ok_:
+                        feas_avoiding = True
+                        break
+                covered = not feas_avoiding
+            except RuntimeError:
+                pass
+        ok = want_s in txt and other_s not in txt and not any(other_s in l for l in labs) and all(l.endswith("=0") for l in labs if want_s in l) and covered
+        R.check(ok, "units:preout:stack%s" % k_, "the text pre-execution wrote to stack %s is emitted through %s (never guarded by the emptiness of the other stack), and every run that emits it also clears that stack: text from %s, guards %s, clears of it %d" % (k_, fn_.rsplit("::", 1)[-1], txt[:60], [l[-40:] for l in labs], len(cl_same)), t["span"]["at"])
     # how commands are grouped into blocks, as a decision table per command: an area-carrying command is the last of
     # its block (it starts a new block unless the open one is empty, and a fresh empty block is opened after it); any
     # other command joins the open block
-    from .paths import acyclic_paths, PathOriginsOv
     LASTEMPTY = "BR[Vec::is_empty(UNWRAP([T]::last(BLOCKS)))]"
 
     def grouping_rows(head_, blocks_):
@@ -648,6 +692,10 @@ def rule_units(ctx, R):
         for t in find(pat):
             labs = sorted(l for l in dominating_edge_labels(cfg, b, evl, t.block) if "LEVEL" in l)
             R.check("LT[LEVEL,K2]=0" in labs and not any(l.startswith("LT[LEVEL,K") and l != "LT[LEVEL,K2]=0" for l in labs), "units:level2:%s" % key, "the %s line of the pre-state is emitted exactly for level >= 2: %s" % (key, labs), t.where)
+    # a label is rewritten exactly when its recorded command index is the command just grouped
+    for rb in rew_blocks:
+        labs = sorted(l for l in dominating_edge_labels(cfg, b, evl, rb, entry=[h for h, bl in loops_.items() if rb in bl and len(bl) == max(len(x) for hh, x in loops_.items() if rb in x)][0]) if l.startswith("EQ[") and ".1" in l)
+        R.check(len(labs) == 1 and labs[0].endswith("=1") and "ELEM<ENUMERATE(" in labs[0] and ".0" in labs[0], "units:point:match", "a label target is rewritten when (and only when) it equals the index of the command being grouped: %s" % [l[-70:] for l in labs], b.blocks[rb]["stmts"][0]["span"]["at"] if b.blocks[rb]["stmts"] else None)
     # the label cursor starts at the first label and advances by one
     curs = {}
     for l_, ds_ in vars_.defs.items():
